@@ -105,6 +105,9 @@ REL = {".LT.": "<", "<": "<", ".LE.": "<=", "<=": "<=", ".GT.": ">", ">": ">", "
        ".EQ.": "==", "==": "==", ".NE.": "!=", "/=": "!=", ".EQN.": "==", ".NEN.": "!="}
 
 
+OR_TIGHT = False  # delta-check repair only: read A.AND.B.OR.C as A.AND.(B.OR.C)
+
+
 class Parser:
     """Fortran-precedence expression parser -> nested tuples."""
 
@@ -127,17 +130,18 @@ class Parser:
 
     # logical: .OR. < .AND. < .NOT. < relational < additive
     def parse_or(self):
-        l = self.parse_and()
-        while self.peek() == ("op", ".OR."):
-            self.next()
-            l = ("or", l, self.parse_and())
-        return l
+        if OR_TIGHT:
+            return self._chain(".AND.", "and", lambda: self._chain(".OR.", "or", self.parse_not))
+        return self._chain(".OR.", "or", self.parse_and)
 
     def parse_and(self):
-        l = self.parse_not()
-        while self.peek() == ("op", ".AND."):
+        return self._chain(".AND.", "and", self.parse_not)
+
+    def _chain(self, tok, tag, sub):
+        l = sub()
+        while self.peek() == ("op", tok):
             self.next()
-            l = ("and", l, self.parse_not())
+            l = (tag, l, sub())
         return l
 
     def parse_not(self):
@@ -1003,6 +1007,8 @@ def micro_constants(rm: RefModel, st: dict):
     if a in ("ADVAN5", "ADVAN7"):
         n = len(rm.comps)
         for name, val in st.items():
+            if name in getattr(rm, "ignore_k", ()):
+                continue
             m = re.match(r"^K(\d+)T(\d+)$", name)
             if m:
                 i, j = int(m.group(1)), int(m.group(2))
